@@ -150,8 +150,32 @@ func checkC15(c *Ctx, r *Report) {
 	build := needFn(m, r, "C15.T1", pkgBrokerLib, "buildConsumerGroup")
 	restore := needFn(m, r, "C15.T1", pkgBrokerLib, "restoreGroupState")
 	if build != nil && restore != nil {
-		bs := fieldsStoredIn(build)
-		rs := fieldsStoredIn(restore)
+		// both functions are taken together with the private helpers they own
+		merge := func(fns []*ssa.Function) map[string]map[string][]ssa.Value {
+			out := map[string]map[string][]ssa.Value{}
+			for _, f := range fns {
+				for t, fm := range fieldsStoredIn(f) {
+					if out[t] == nil {
+						out[t] = map[string][]ssa.Value{}
+					}
+					for fl, vs := range fm {
+						out[t][fl] = append(out[t][fl], vs...)
+					}
+				}
+			}
+			return out
+		}
+		buildFam, restoreFam := fnFamily(m, build), fnFamily(m, restore)
+		famReads := func(fns []*ssa.Function, typ, field string) bool {
+			for _, f := range fns {
+				if fnReadsField(f, typ, field) {
+					return true
+				}
+			}
+			return false
+		}
+		bs := merge(buildFam)
+		rs := merge(restoreFam)
 		for _, pr := range c15Pairs {
 			// write direction
 			key := fmt.Sprintf("persist %s.%s → %s.%s", pr.ityp, pr.ifield, pr.ptyp, pr.pfield)
@@ -168,7 +192,7 @@ func checkC15(c *Ctx, r *Report) {
 			}
 			if pr.ifield == "members" || pr.ifield == "assignments" {
 				// element-wise: require a range over the in-memory container in build
-				okw = len(vals) > 0 && fnReadsField(build, pkgBrokerLib+"."+pr.ityp, pr.ifield)
+				okw = len(vals) > 0 && famReads(buildFam, pkgBrokerLib+"."+pr.ityp, pr.ifield)
 			}
 			if okw {
 				r.ok("C15.T1", key, m.Pos(build.Pos()), "")
@@ -185,7 +209,7 @@ func checkC15(c *Ctx, r *Report) {
 				}
 			}
 			if pr.ifield == "members" || pr.ifield == "assignments" {
-				okr = len(vals) > 0 && fnReadsField(restore, pkgMetaPB+"."+pr.ptyp, pr.pfield)
+				okr = len(vals) > 0 && famReads(restoreFam, pkgMetaPB+"."+pr.ptyp, pr.pfield)
 			}
 			if okr {
 				r.ok("C15.T1", key, m.Pos(restore.Pos()), "")
